@@ -12,6 +12,7 @@ from sa.world import get_world
 from sa import dwconf, layout, expr, paths, streams, dispatch, literals, hrules
 from sa.absint import Ctor, Obj, FuncV, Unknown
 from sa.report import AnalysisError
+from sa.model import walk_no_nested
 from spec import dwarf as D
 
 CF = 'dwarf/callframe.py'
@@ -133,7 +134,7 @@ def check_entries(ctx, w):
     want = [('=', expr.spec_cond('CIE_id == 0')), ('=', expr.spec_cond('(dwarf_format == 32 and CIE_id == 0xFFFFFFFF) or CIE_id == 0xFFFFFFFFFFFFFFFF'))]
     ctx.ob('E-i', f.construct, '.eh_frame: id 0 is a CIE; .debug_frame: all-ones id of the format', tr.get('is_CIE') == want, got=tr.get('is_CIE'), expected=want,
            msg='CIE/FDE discrimination differs from DWARF §6.4.1 / LSB')
-    ifs = [n for n in f.node.body if isinstance(n, ast.If)]
+    ifs = [n for n in walk_no_nested(f.node) if isinstance(n, ast.If)]
     zero = [n for n in ifs if expr.cond_str(n.test, env) == expr.spec_cond('for_eh_frame and entry_length == 0')]
     ctx.ob('E-i', f.construct, 'length 0 in .eh_frame is the terminator', len(zero) == 1 and [U(s) for s in zero[0].body] == ['return ZERO(offset)'])
     isfor = [n for n in ifs if expr.cond_str(n.test, env) == 'T(for_eh_frame)' and any('is_CIE' in U(s) for s in n.body)]
